@@ -1851,6 +1851,79 @@ def rule_main_loop_cycles_make_progress(eng, rep, rule="C07-17.every-cycle-of-th
                     path=cfg.describe_path(p))
 
 
+# --------------------------------------------------------------------------------------------- C07-18
+def rule_while_loops_are_bounded(eng, rep, rule="C07-18.every-while-loop-has-a-counter-that-ends-it"):
+    """Every `while` reachable from solve, other than the main loop (C07-17) and the hard-restart loop (budget conjunct, below), must be ended by a counter on its own:
+    a conjunct `v < E` / `v <= E` of the loop test whose false edge leaves the loop, with `v` increased by a positive literal on every path through the body
+    (must-pass-through), written nowhere else in the loop, and with no name of E written in the loop."""
+    from .anchors import anchors
+    A = anchors(eng)
+    reach = eng.reachable_from_solve()
+    nloops = 0
+    for fid in sorted(reach):
+        fi = eng.prog.functions[fid]
+        if fi.is_lambda:
+            continue
+        cfg = None
+        for node in eng.prog.own_nodes(fi):
+            if not isinstance(node, ast.While):
+                continue
+            cfg = cfg or eng.cfg(fi)
+            heads = [h for (h, kind, st) in cfg.loops if st is node]
+            if not heads:
+                continue
+            h = heads[0]
+            nloops += 1
+            site = eng.where(fi, node)
+            if fi.fid == A.solve_main.fid and isinstance(node.test, ast.Constant):
+                rep.ok(rule, site, "the main loop: decided by C07-17", nontrivial=False)
+                continue
+            inside = cfg.loop_nodes(h)
+            written = {}
+            for n in inside:
+                if n == h:
+                    continue
+                strong, weak = cfg.defs_of(n)
+                for v in strong | weak:
+                    written.setdefault(v, []).append(n)
+            verdict = None
+            for cn in cfg.nodes_of_kind("cond"):
+                if cfg.stmt_of(cn) is not node:
+                    continue
+                if not [m for m, e in cfg.succ(cn) if e["label"] is False and m not in inside]:
+                    continue          # not a conjunct that can end the loop on its own
+                at = atom_of(cfg.ast_of(cn), True)
+                if at.op not in ("lt", "le") or not isinstance(at.lhs, ast.Name):
+                    continue
+                v = at.lhs.id
+                bound_names = set(x.id for x in ast.walk(at.rhs) if isinstance(x, ast.Name))
+                if bound_names & set(written):
+                    continue
+                incs = []
+                other = []
+                for n in written.get(v, []):
+                    st = cfg.ast_of(n)
+                    if isinstance(st, ast.AugAssign) and isinstance(st.op, ast.Add) and isinstance(st.target, ast.Name) and (const_value(st.value) or 0) > 0:
+                        incs.append(n)
+                    else:
+                        other.append(n)
+                if fi.fid == A.solve.fid and v == "nf" and any(isinstance(cfg.ast_of(n), ast.Assign) and any(t.fid == A.solve_main.fid for t in (eng.res.calls.get(id(cfg.ast_of(n).value)).targets if isinstance(cfg.ast_of(n).value, ast.Call) and eng.res.calls.get(id(cfg.ast_of(n).value)) else [])) for n in other):
+                    verdict = ("ok", "the hard-restart loop is bounded by the budget conjunct `%s`: every run evaluates at least once (C02-2) and returns the running count (C02-3)" % repr(at))
+                    break
+                if other or not incs:
+                    continue
+                backs = [a for a in inside for m, e in cfg.succ(a, with_exc=False) if m == h]
+                if all(b in incs or cfg.path_avoiding(h, b, incs) is None for b in backs):
+                    verdict = ("ok", "`%r` ends the loop: `%s` is increased on every path through the body and the bound is not written in the loop" % (at, v))
+                    break
+            if verdict is None:
+                rep.bad(rule, site, "%s|while-without-counter|%s" % (fid, short(node.test, 30)),
+                        "`while %s`: no conjunct of the test is a counter that is increased on every path through the body against a bound fixed during the loop" % short(node.test, 60))
+            else:
+                rep.ok(rule, site, verdict[1])
+    rep.require_count(rule, "while loops reachable from solve", nloops, 6)
+
+
 def run(eng, rep):
     rep.explain("C07: call conformance of every resolved internal call (T10); shape of the graceful input-error path in solve (T2); "
                 "guard present for each documented invalid-argument class (frozen table, matched on normalised conditions); "
@@ -1882,5 +1955,6 @@ def run(eng, rep):
     rep.guarded(rule_solve_does_not_assert_on_its_arguments, eng, rep)
     rep.guarded(rule_float_to_int_handlers_are_two_sided, eng, rep)
     rep.guarded(rule_main_loop_cycles_make_progress, eng, rep)
+    rep.guarded(rule_while_loops_are_bounded, eng, rep)
     from . import c20
     c20.rule_str_never_formats_none(eng, rep, rule="C07-8.printing")
